@@ -289,6 +289,7 @@ def run(ctx):
     merge_witness = None
     reqs = []
     pending = []
+    reuse_candidates = {}
     for spec, seq in work:
         if ctx.time_left() < 20:
             break
@@ -316,8 +317,9 @@ def run(ctx):
         if worse and sum(cb.values()) > sum(cs.values()):
             from .c03 import name_reuse, touches_renamed_model
             if (name_reuse(seq) or touches_renamed_model(seq)) and optrig.model_explains_optimiser(ctx, spec, seq):
-                ctx.count('worse_under_name_reuse')
-                ctx.fail(F_REUSE, 'with name reuse the optimised run differs from the one-at-a-time run', rep)
+                # decided below, once the rebuild-count model has been asked: the name-reuse finding explains the
+                # extra rebuild only if the operations the optimiser left really cost that many rebuilds in the model
+                reuse_candidates[len(pending)] = rep
             else:
                 ctx.fail(None, 'the optimised run rebuilds table %s more often (%d) than the one-at-a-time run (%d)'
                          % (worse[0], cb[worse[0]], cs.get(worse[0], 0)), rep)
@@ -331,7 +333,7 @@ def run(ctx):
         pending.append((seq, ops_b, sum(cb.values())))
     outs = ctx.driver.ask(reqs) if ctx.driver else []
     k = 0
-    for seq, ops_b, real_total in pending:
+    for i, (seq, ops_b, real_total) in enumerate(pending):
         pred = 0
         for name, ops in ops_b:
             pred += outs[k]['rebuilds'] if outs else 0
@@ -339,6 +341,14 @@ def run(ctx):
         if outs:
             ctx.corr_case('rebuild_count', pred == real_total, case={'mutations': seq, 'ops': ops_b},
                           model=pred, impl=real_total)
+        if i in reuse_candidates:
+            if not outs or pred == real_total:
+                ctx.count('worse_under_name_reuse')
+                ctx.fail(F_REUSE, 'with name reuse the optimised run differs from the one-at-a-time run',
+                         reuse_candidates[i])
+            else:
+                ctx.fail(None, 'the optimised run rebuilds more often than the one-at-a-time run, and more often (%d) '
+                         'than the operations it executes cost in the model (%d)' % (real_total, pred), reuse_candidates[i])
     # ---- the documented guarantee and the extracted table ------------------------------------
     w = [{'t': 'AddField', 'model': 'Alpha', 'field': 'c', 'ftype': 'IntegerField', 'initial': '1', 'attrs': []},
          {'t': 'DeleteField', 'model': 'Alpha', 'field': 'b'}]
